@@ -7,7 +7,12 @@ import (
 )
 
 // stubs for rules built in later steps
-func rulePanicSites(r *rep.Report, p *load.Program, rl *roles.Roles)                        {}
+func rulePanicSites(r *rep.Report, p *load.Program, rl *roles.Roles) {
+	ruleIndexSites(r, p, rl)
+	if p.Cfg.Name == "amd64-default" {
+		ruleBounds(r, p, rl)
+	}
+}
 func ruleArithStructure(r *rep.Report, p *load.Program) { ruleUnrolledChains(r, p) }
 func ruleSchedules(r *rep.Report, p *load.Program)                                           {}
 func ruleExpandLengths(r *rep.Report, p *load.Program)                                       {} // part of ruleBitOrigin(modm)
